@@ -25,12 +25,12 @@ echo "$name: demo-on-clean=$([ $clean_rc -eq 0 ] && echo pass || echo FAIL) buil
 if [ $clean_rc -eq 0 ] && [ $build_ok = yes ] && [ $suite_ok = yes ] && [ $mut_rc -ne 0 ]; then
   d=/verif/seeded/$name; mkdir -p "$d"
   cp "$out/patch.diff" "$d/patch.diff"; [ -f "$out/notes.md" ] && cp "$out/notes.md" "$d/notes.md"
-  for f in $demos; do cp "$awt/$f" "$d/$(basename $f)"; done
+  for f in $demos; do cp "$awt/$f" "$d/$(echo $f | tr / _)"; done
   python3 - "$d" "$name" "$prop" "$demos" <<'PY'
 import json,sys,subprocess
 d,name,prop,demos=sys.argv[1:5]
 meta={"id":name,"breaks_property":prop,"origin":"independent sub-agent given only the property text and a scratch worktree",
- "demonstration_files":[{"place_at":f,"stored_as":f.split('/')[-1]} for f in demos.split()],
+ "demonstration_files":[{"place_at":f,"stored_as":f.replace('/','_')} for f in demos.split()],
  "verified_here":{"patch_applies_to":subprocess.run(['git','-C','/repo','rev-parse','--short','HEAD'],capture_output=True,text=True).stdout.strip(),
    "builds_with_change":True,"repository_suite_passes_with_change":True,"demonstration_passes_without_change":True,"demonstration_fails_with_change":True,
    "commands":"scripts/verify_seeded.sh: fresh worktree of /repo HEAD; go test -run Seeded in the demo's package before and after `git apply patch.diff`; go build ./... in every module + CLI; go test -vet=off -count=1 -skip Seeded ./... in libvore, algo, ast, ds, files"}}
